@@ -105,6 +105,16 @@ func init() {
 		imports: []string{"CircuitModel.GoLiveCfgPrims"}, open: []string{"CM", "CM.Go", "CM.GoLiveCfg"}, vars: "", monad: "LM",
 		types: map[string]string{"Config": "GoConfig"},
 	}
+	rollTypes := map[string]string{"time.Time": "Int", "time.Duration": "Int", "int": "Int", "int64": "Int", "func(int)": "ClearFn", "[]int64": "List Int"}
+	units["GoRollingBuckets"] = &unit{
+		name: "GoRollingBuckets", file: "faststats/rolling_bucket.go", recv: "RollingBuckets", funcs: []string{"Advance"},
+		imports: []string{"CircuitModel.GoRollingPrims"}, open: []string{"CM", "CM.Go", "CM.GoRolling", "CM.GoRolling.B"}, vars: "", monad: "QM", types: rollTypes,
+	}
+	units["GoRollingCounter"] = &unit{
+		name: "GoRollingCounter", file: "faststats/rolling_counter.go", recv: "RollingCounter",
+		funcs:   []string{"Inc", "RollingSumAt", "TotalSum", "GetBuckets", "clearBucket", "Reset"},
+		imports: []string{"CircuitModel.GoRollingPrims"}, open: []string{"CM", "CM.Go", "CM.GoRolling", "CM.GoRolling.C"}, vars: "", monad: "QM", types: rollTypes,
+	}
 	units["GoSetCfg"] = &unit{
 		name: "GoSetCfg", file: "circuit.go", recv: "Circuit", funcs: []string{"SetConfigThreadSafe", "SetConfigNotThreadSafe", "Config"},
 		imports: []string{"CircuitModel.GoSetCfgPrims"}, open: []string{"CM", "CM.Go", "CM.GoSetCfg"}, vars: "", monad: "BM",
@@ -184,6 +194,7 @@ type tr struct {
 	lits    []string // generated definitions of this function's closures (emitted before it)
 	litKeys []string // their names, for the apply function
 	litCaps [][]string
+	selfRec bool // the function calls itself: it gets a fuel parameter
 }
 
 func (t *tr) ltype(e ast.Expr) string {
@@ -333,6 +344,8 @@ func (t *tr) expr(e ast.Expr) string {
 			return "(decide (" + t.atom(x.X) + " " + x.Op.String() + " " + t.atom(x.Y) + "))"
 		case token.ADD, token.SUB, token.MUL:
 			return "(" + t.atom(x.X) + " " + x.Op.String() + " " + t.atom(x.Y) + ")"
+		case token.REM:
+			return "(goMod " + t.atom(x.X) + " " + t.atom(x.Y) + ")" // Go's remainder (sign of the dividend); the primitives say so
 		case token.QUO:
 			return "(goDiv " + t.atom(x.X) + " " + t.atom(x.Y) + ")" // Go's integer division truncates; the primitives say so
 		}
@@ -343,6 +356,8 @@ func (t *tr) expr(e ast.Expr) string {
 			return paren(t.expr(x.X)) + ".f_" + x.Sel.Name // a field of a computed value
 		}
 		switch {
+		case root.Name == t.recvVar && t.recvVar != "" && len(path) == 1 && t.funcs[path[0]]:
+			return "recvMethod_" + path[0] // a method value (bound to the receiver)
 		case root.Name == t.recvVar && t.recvVar != "":
 			return "(← recv_" + strings.Join(path, "_") + ")" // a field read: may be a word shared with other goroutines
 		case t.locals[root.Name]:
@@ -530,6 +545,9 @@ func (t *tr) call(c *ast.CallExpr) string {
 					if bl, ok := c.Args[1].(*ast.BasicLit); ok && bl.Value == "0" {
 						return "[]"
 					}
+					if len(c.Args) == 2 {
+						return "(goMakeZeros " + t.atom(c.Args[1]) + ")" // n zero values
+					}
 				}
 			}
 			bad(c, "make form")
@@ -554,6 +572,12 @@ func (t *tr) call(c *ast.CallExpr) string {
 			return "(← pkg_" + f.Name + t.args(c.Args) + ")"
 		}
 	case *ast.SelectorExpr:
+		if ix, isIx := f.X.(*ast.IndexExpr); isIx {
+			// a method of an element of a receiver field: r.buckets[idx].Add(1)
+			if root, path, ok := flatten(ix.X); ok && root.Name == t.recvVar && t.recvVar != "" && len(path) > 0 {
+				return "(← recv_" + strings.Join(path, "_") + "_at_" + f.Sel.Name + " " + t.atom(ix.Index) + t.args(c.Args) + ")"
+			}
+		}
 		root, path, ok := flatten(f)
 		if !ok {
 			// a method of a computed value: c.now().Sub(startTime)
@@ -561,6 +585,10 @@ func (t *tr) call(c *ast.CallExpr) string {
 		}
 		switch {
 		case root.Name == t.recvVar && t.recvVar != "":
+			if len(path) == 1 && path[0] == t.fname {
+				t.selfRec = true
+				return "(← go_" + path[0] + " fuel" + t.args(c.Args) + ")"
+			}
 			if len(path) == 1 && t.funcs[path[0]] {
 				t.calls[path[0]] = true
 				if t.u.recvParam != "" {
@@ -633,6 +661,25 @@ func (t *tr) stmt(s ast.Stmt, ind string, out *[]string) {
 			}
 		}
 	case *ast.AssignStmt:
+		if (x.Tok == token.ADD_ASSIGN || x.Tok == token.SUB_ASSIGN) && len(x.Lhs) == 1 && len(x.Rhs) == 1 {
+			if id, ok := x.Lhs[0].(*ast.Ident); ok && t.locals[id.Name] {
+				op := "+"
+				if x.Tok == token.SUB_ASSIGN {
+					op = "-"
+				}
+				t.emit(out, ind, lname(id.Name)+" := "+lname(id.Name)+" "+op+" "+t.atom(x.Rhs[0]))
+				return
+			}
+		}
+		if x.Tok == token.ASSIGN && len(x.Lhs) == 1 && len(x.Rhs) == 1 {
+			if ix, ok := x.Lhs[0].(*ast.IndexExpr); ok {
+				if id, ok := ix.X.(*ast.Ident); ok && t.locals[id.Name] {
+					// an element of a local slice
+					t.emit(out, ind, lname(id.Name)+" := goSet "+lname(id.Name)+" "+t.atom(ix.Index)+" "+t.atom(x.Rhs[0]))
+					return
+				}
+			}
+		}
 		if x.Tok != token.DEFINE && x.Tok != token.ASSIGN {
 			bad(s, "assignment operator")
 		}
@@ -694,7 +741,48 @@ func (t *tr) stmt(s ast.Stmt, ind string, out *[]string) {
 		t.locals[v.Name] = true
 		t.emit(out, ind, "for "+lname(v.Name)+" in "+coll+" do")
 		t.block(x.Body.List, ind+"  ", out)
+	case *ast.ForStmt:
+		// for i := 0; i < A [&& B]; i++ { ... }   (A must not change inside the loop: it is evaluated once here)
+		as, ok := x.Init.(*ast.AssignStmt)
+		if !ok || as.Tok != token.DEFINE || len(as.Lhs) != 1 || len(as.Rhs) != 1 {
+			bad(s, "for-loop init")
+		}
+		iv, ok := as.Lhs[0].(*ast.Ident)
+		if bl, isLit := as.Rhs[0].(*ast.BasicLit); !ok || !isLit || bl.Value != "0" {
+			bad(s, "for-loop init")
+		}
+		post, ok := x.Post.(*ast.IncDecStmt)
+		if pid, isId := post.X.(*ast.Ident); !ok || post.Tok != token.INC || !isId || pid.Name != iv.Name {
+			bad(s, "for-loop post statement")
+		}
+		t.locals[iv.Name] = true
+		var bound, extra ast.Expr
+		if be, ok := x.Cond.(*ast.BinaryExpr); ok && be.Op == token.LAND {
+			x.Cond, extra = be.X, be.Y
+		}
+		if be, ok := x.Cond.(*ast.BinaryExpr); ok && be.Op == token.LSS {
+			if id, ok := be.X.(*ast.Ident); ok && id.Name == iv.Name {
+				bound = be.Y
+			}
+		}
+		if bound == nil {
+			bad(s, "for-loop condition")
+		}
+		t.emit(out, ind, "for "+lname(iv.Name)+" in goRange "+t.atom(bound)+" do")
+		if extra != nil {
+			t.emit(out, ind+"  ", "if (!"+t.atom(extra)+") then")
+			t.emit(out, ind+"    ", "break")
+		}
+		t.block(x.Body.List, ind+"  ", out)
 	case *ast.IncDecStmt:
+		if id, ok := x.X.(*ast.Ident); ok && t.locals[id.Name] {
+			op := "+"
+			if x.Tok == token.DEC {
+				op = "-"
+			}
+			t.emit(out, ind, lname(id.Name)+" := "+lname(id.Name)+" "+op+" 1")
+			return
+		}
 		root, path, ok := flatten(x.X)
 		if !ok || root.Name != t.recvVar || t.recvVar == "" {
 			bad(s, "++/-- on something that is not a receiver field")
@@ -836,6 +924,15 @@ func (u *unit) translate(fd *ast.FuncDecl, pkgs, funcs map[string]bool) fnOut {
 		body = append(body, "  return ()")
 	}
 	head := fmt.Sprintf("/-- %s -/\ndef go_%s %s : %s %s := fn do", strings.SplitN(src(fd), "{", 2)[0], fd.Name.Name, strings.Join(params, " "), u.monad, paren(res))
+	if t.selfRec {
+		// a function that calls itself: structural recursion on a fuel argument (running out of fuel is `goOutOfFuel`; the
+		// tie theorem says how much fuel is enough)
+		head = fmt.Sprintf("/-- %s -/\ndef go_%s (fuel : Nat) %s : %s %s :=\n  match fuel with\n  | 0 => goOutOfFuel\n  | fuel + 1 => fn do",
+			strings.SplitN(src(fd), "{", 2)[0], fd.Name.Name, strings.Join(params, " "), u.monad, paren(res))
+		for i := range body {
+			body[i] = "  " + body[i]
+		}
+	}
 	var calls []string
 	for c := range t.calls {
 		calls = append(calls, c)
